@@ -46,3 +46,19 @@ reg(
     TECHNIQUE="model-based runtime monitoring: reference-model comparison after every operation + structural aliasing invariant",
     REQUIRED_MONITORS={"quick": {"state_compare": 50000, "aliasing": 50000, "equality": 50000}, "thorough": {"state_compare": 10**6, "aliasing": 10**6}},
 )
+
+reg(
+    "C08",
+    RULE="(SAN list, commonName, cn flag, host) tuples fed to the real match_hostname / connection._match_hostname and (certificate bytes, pin) pairs fed to assert_fingerprint; names built from the label alphabet {a,b,ab,*,a*,*a,a*b,**,xn--a,xn--*,''}: all single-entry x host pairs up to the stated label counts, strided 4-label pairs, case variants, random 2-3 entry lists, exhaustive small commonName grid, IP spellings typed DNS / IP Address; pins: case change, colon at every position, every single-nibble flip, every truncation, 1-2 nibble extensions, wrong-length digests; a case is non-trivial unless it is the unmodified true pin; distinct = distinct tuples",
+    ASSUMPTIONS=COMMON_ASSUMPTIONS + [
+        "three-valued reference: partial wildcards (a*, *a, a*b), bare '*', hosts that themselves contain '*' or empty labels, empty names and unparsable iPAddress entries are 'either' and only counted",
+        "commonName is must-accept only when enabled, the host is not an IP and the certificate has no DNS/IP SAN entry",
+        "SAN lists longer than 3 entries and names longer than 4 labels are not generated",
+    ],
+    SHARDS={"quick": 8, "thorough": 16},
+    BUDGET={"quick": 40, "thorough": 420},
+    LEVEL_TEXT="Runtime monitoring of the real matchers against an independent three-valued RFC 6125 reference: every single-entry/host pair over the stated label alphabet up to 3 labels is enumerated (4 labels strided), plus case variants, multi-entry lists, the commonName grid, IP-literal spellings through both entry points, and the complete stated pin-mutation family for MD5/SHA-1/SHA-256 digests of several certificates.",
+    LEVEL_NOTE="Trusts the reference matcher (about 60 lines, written from the statement) and Python's ipaddress module for address values; 'either' points are counted but never judged.",
+    TECHNIQUE="differential runtime monitoring against a three-valued reference matcher; exhaustive enumeration of the small alphabet",
+    REQUIRED_MONITORS={"quick": {"name_decided": 100000, "pin_verdict": 5000, "cn_rule": 500, "ip_rule": 500}, "thorough": {"name_decided": 10**6, "pin_verdict": 5000}},
+)
